@@ -492,6 +492,18 @@ fn first_diff(x: &str, y: &str) -> String {
     format!("length {} vs {}", x.len(), y.len())
 }
 
+/// the text of `x` from three lines before its first difference with `y`, at most 40 lines / 3000 chars
+fn around_diff(x: &str, y: &str) -> String {
+    let lx: Vec<&str> = x.lines().collect();
+    let ly: Vec<&str> = y.lines().collect();
+    let mut i = 0;
+    while i < lx.len() && i < ly.len() && lx[i] == ly[i] {
+        i += 1;
+    }
+    let from = i.saturating_sub(3);
+    lx[from..lx.len().min(from + 40)].join("\n").chars().take(3000).collect()
+}
+
 // ------------------------------------------------------------------------------------------------
 // graph tie
 
@@ -697,11 +709,10 @@ pub fn gen_disk(rng: &mut Rng, idx: usize) -> Vec<(String, DirState)> {
         } else {
             DirState::Unit(p.to_string(), imps)
         };
-        if let DirState::Missing = st {
-            if *p == "Main" {
-                disk.push((p.to_string(), DirState::Unit("Main".into(), vec![])));
-                continue;
-            }
+        // the entry file always exists (it is what the user names on the command line)
+        if *p == "Main" && matches!(st, DirState::Missing | DirState::Empty) {
+            disk.push((p.to_string(), DirState::Unit("Main".into(), vec![])));
+            continue;
         }
         disk.push((p.to_string(), st));
     }
@@ -809,7 +820,16 @@ pub fn main(args: &util::Args) {
         let root = base.join(format!("disk{}", i));
         write_disk(&root, &disk, &mut r);
         let real = real_plan(&root);
-        writeln!(gout, "d{}\tCASE\t{}\t{}", i, disk_sexp(&disk).to_text(), real.to_text()).unwrap();
+        // the same layout again on fresh threads (fresh hash keys): every outcome must be the same
+        let mut others: Vec<String> = Vec::new();
+        for _ in 0..5 {
+            let r2 = root.clone();
+            let t = std::thread::spawn(move || real_plan(&r2).to_text()).join().unwrap_or_else(|_| "(thread-panic)".into());
+            if t != real.to_text() && !others.contains(&t) {
+                others.push(t);
+            }
+        }
+        writeln!(gout, "d{}\tCASE\t{}\t{}\t{}", i, disk_sexp(&disk).to_text(), real.to_text(), others.join(" ;; ")).unwrap();
         let _ = std::fs::remove_dir_all(&root);
     }
     // exhaustive: three packages, every import set over {Main, Aa, Bb, Zz(absent)}
@@ -858,11 +878,14 @@ pub fn main(args: &util::Args) {
     // ---- (b) K-fold recompilation, (c) master digests
     let projects = all_projects(args);
     let copies = 3u64;
+    // an unclassified hash iteration in the anchored sources (tools/hashiter.py) widens the search
+    let widen = args.rest.iter().any(|x| x == "widen");
     let mut det = String::new();
     let mut dig = String::new();
     for p in &projects {
         let multi = p.imports_of_main() >= 2;
         let k = if quick { if multi { 40 } else if p.kind == "generated" { 12 } else { 6 } } else if multi { 120 } else { 24 };
+        let k = if widen { k * 3 } else { k };
         let roots: Vec<PathBuf> = (0..copies).map(|c| base.join(format!("{}-c{}", p.id, c))).collect();
         for (c, r) in roots.iter().enumerate() {
             materialize(r, p, c as u64 * 104729);
@@ -873,41 +896,40 @@ pub fn main(args: &util::Args) {
             distinct.entry(ch).or_default().insert(digest(t));
             writeln!(dig, "{}\t{}\t{}\t{}", p.id, ch, digest(t), t.len()).unwrap();
         }
-        let mut mismatch: Option<(String, String, String, String)> = None;
+        // first differing observation per channel
+        let mut mism: Vec<(String, String, String, String)> = Vec::new();
         for i in 1..k {
             let obs = observe_fresh(&roots[i % roots.len()]);
-            for ((ch, t), (ch0, t0)) in obs.iter().zip(first.iter()) {
-                distinct.entry(ch).or_default().insert(digest(t));
-                if (ch != ch0 || t != t0) && mismatch.is_none() {
-                    mismatch = Some((ch.to_string(), first_diff(t0, t), t0.clone(), t.clone()));
+            if obs.len() != first.len() || obs.iter().zip(first.iter()).any(|(x, y)| x.0 != y.0) {
+                // different outcome class: compare the channels both runs have
+                if !mism.iter().any(|m| m.0 == "outcome") {
+                    let o0 = first.iter().find(|(c, _)| *c == "outcome").map(|(_, t)| t.clone()).unwrap_or_default();
+                    let o1 = obs.iter().find(|(c, _)| *c == "outcome").map(|(_, t)| t.clone()).unwrap_or_default();
+                    mism.push(("outcome".into(), format!("`{}` vs `{}`", o0, o1), o0, o1));
                 }
             }
-            if obs.len() != first.len() && mismatch.is_none() {
-                mismatch = Some(("outcome".into(), format!("{} vs {} channels", first.len(), obs.len()), String::new(), String::new()));
+            for (ch, t) in obs.iter() {
+                distinct.entry(ch).or_default().insert(digest(t));
+                if let Some((_, t0)) = first.iter().find(|(c, _)| c == ch) {
+                    if t != t0 && !mism.iter().any(|m| m.0 == *ch) {
+                        mism.push((ch.to_string(), first_diff(t0, t), around_diff(t0, t), around_diff(t, t0)));
+                    }
+                }
             }
         }
         let dist = distinct.iter().map(|(c, s)| format!("{}={}", c, s.len())).collect::<Vec<_>>().join(",");
         let outcome = first.iter().find(|(c, _)| *c == "outcome").map(|(_, t)| t.clone()).unwrap_or_default();
         let ndiag = first.iter().find(|(c, _)| *c == "diagnostics").map(|(_, t)| t.lines().count()).unwrap_or(0);
-        let (mch, mwhat, t0, t1) = mismatch.unwrap_or_default();
         writeln!(
             det,
-            "{}\tDET\t{}\t{}\t{}\t{}\t{}\t{}\t{}\t{}\t{}\t{}\t{}",
-            p.id,
-            p.kind,
-            p.tags.join(","),
-            k,
-            p.n_packages(),
-            p.imports_of_main(),
-            outcome,
-            ndiag,
-            dist,
-            mch,
-            esc_line(&mwhat),
-            esc_line(&if mch.is_empty() { String::new() } else { format!("{}\u{1}{}", t0.chars().take(6000).collect::<String>(), t1.chars().take(6000).collect::<String>()) }),
+            "{}\tDET\t{}\t{}\t{}\t{}\t{}\t{}\t{}\t{}",
+            p.id, p.kind, p.tags.join(","), k, p.n_packages(), p.imports_of_main(), outcome, ndiag, dist
         )
         .unwrap();
-        if !mch.is_empty() {
+        for (ch, what, t0, t1) in &mism {
+            writeln!(det, "{}\tMISMATCH\t{}\t{}\t{}\t{}", p.id, ch, esc_line(what), esc_line(t0), esc_line(t1)).unwrap();
+        }
+        if !mism.is_empty() {
             // keep the sources of a non-deterministic project for the replay file
             let mut srcs = String::new();
             for (rel, c) in &p.files {
